@@ -103,6 +103,15 @@ CLAIMED = {
             "wire side compared through JsonDocument only (XmlDocument/Soap11 wire decoding is C01's)",
             "contract-based deductive verification of the packing loop (z3) + labelled bounded relational comparison",
             "DESIGN.md section 4 C18"),
+    'C16': ("Contract of get_polymorphic_target decided by complete case analysis over a depth-3 class tree with a sibling "
+            "branch (declared class, customised variant, array member) against the live class-hierarchy facts. Marker "
+            "round trips (bounded, labelled): subclass instances returned where the base is declared, single and in a "
+            "mixed array, polymorphic on/off, through the real pipeline of XmlDocument/Soap11/Soap12 and of "
+            "JSON/YAML/MessagePack with wrapper keys: ancestors' fields first, type marker present and resolvable inside "
+            "the transmitted document, the transmitted value sent back reconstructs the same subclass with equal fields.",
+            "one class tree (subclasses in the namespace of their base); bounded parts listed in the evidence",
+            "contract-based verification: case analysis over live class-hierarchy facts + labelled bounded round trips",
+            "DESIGN.md section 4 C16"),
 }
 NOT_YET = {}
 for i in range(1, 19):
